@@ -228,7 +228,7 @@ func (t Typed) Compile(i FeatureIndex, w World) search.Iterator {
 	case FeatureTypeRelation:
 		begin, end = FeatureIDRelationBegin, FeatureIDRelationEnd
 	default:
-		panic("Bad FeatureType")
+		return search.NewEmptyIterator()
 	}
 	return search.KeyRange{Begin: begin, End: end, Query: adaptQuery{Query: t.Query, World: w}}.Compile(i)
 }
